@@ -323,3 +323,12 @@ func OpenImage(cfg InstCfg, path string) (*Inst, error) {
 	}
 	return in, nil
 }
+
+// UUIDs converts point indices to uuids.
+func UUIDs(ids ...int) []uuid.UUID {
+	out := make([]uuid.UUID, len(ids))
+	for i, id := range ids {
+		out[i] = UUID(id)
+	}
+	return out
+}
